@@ -11,6 +11,8 @@ import glob, json, os, re
 ROOT = os.path.dirname(os.path.abspath(__file__))
 SEEDED = os.path.join(ROOT, "seeded")
 DESC = json.load(open(os.path.join(SEEDED, "seed_descriptions.json")))
+APPLIES = json.load(open(os.path.join(SEEDED, "applies_at.json"))) if os.path.exists(os.path.join(SEEDED, "applies_at.json")) else {}
+HEAD = __import__("subprocess").run(["git", "-C", "/repo", "log", "--format=%h", "-1"], capture_output=True, text=True).stdout.strip()
 
 # what was done after a miss (hand-written; the history is in git and DESIGN.md §11)
 STRENGTHENED = {
@@ -78,6 +80,14 @@ for d in sorted(glob.glob(os.path.join(SEEDED, "C??-?"))):
     }
     if sid in STRENGTHENED:
         meta["note"] = STRENGTHENED[sid]
+    at = APPLIES.get(sid)
+    if at:
+        meta["patch_applies_to"] = at if at != HEAD else f"{at} (= /repo HEAD when this file was written)"
+        if at != HEAD:
+            meta["patch_note"] = (f"patch.diff applies to /repo commit {at} and earlier: a later `fix:` commit rewrote the function it edits "
+                                  "(the F-10 repair in frontend/tags.rs, or the F-23/F-29 repair in compute_fold); the verdicts above were obtained on the tree the seed was written for")
+    if os.path.exists(os.path.join(d, "patch.orig.diff")):
+        meta["patch_rebased"] = "patch.diff was rebased onto a later /repo HEAD with git apply --3way; the adversary's original is patch.orig.diff"
     json.dump(meta, open(os.path.join(d, "meta.json"), "w"), indent=1)
     rows.append(meta)
 
